@@ -9,42 +9,27 @@ namespace GuppyVerif.Unitary
 
 /-- **C24 (main)**: for every way of obtaining the context flags (annotation or `with`
     block), every flag set and every block — any nesting of calls inside arguments, any
-    nesting of `if` / `while` — the block is rejected **iff** some call *anywhere* in it
-    (statement, nested argument at any depth, `if` / `while` condition) passes a
-    qubit-containing argument to a callee whose flags do not include every flag the context
-    requires (barrier / state_result nodes are opaque), or the context is daggered and a loop,
-    an assignment or a subscripted place occurs. -/
+    nesting of `if` / `while` / `with` — the block is rejected **iff** some expression position
+    *anywhere* in it (statement, assigned value, `if` / `while` condition, control argument,
+    at any depth) contains a call (itself at any argument depth) that passes a
+    qubit-containing argument to a callee whose flags do not include every flag required at
+    that position — the context's flags plus those of every enclosing `with` block —
+    (barrier / state_result nodes are opaque) or, where dagger is required, a subscripted
+    place; or a loop or an assignment stands where dagger is required. -/
 theorem rejected_iff (k : Kind) (F : Flags) (b : Block) :
     check k F b ≠ .ok ↔ Violates F b := by
-  unfold check Violates
-  have hp := prepass_none k F b
-  have he := errsBlock_ne_nil F b
-  rw [badB_iff] at he
-  cases hpre : prepass k F b with
-  | some e =>
-    have : F.dagger = true ∧ (LoopInB b ∨ AssignInB b) := by
-      have h := (not_congr hp).mp (by rw [hpre]; simp)
-      exact Classical.not_not.mp h
-    simp only [ne_eq, reduceCtorEq, not_false_eq_true, true_iff]
-    exact .inr ⟨this.1, this.2.elim .inl (fun h => .inr (.inl h))⟩
-  | none =>
-    have hn := hp.mp hpre
-    cases hes : errsBlock F b with
-    | nil =>
-      simp only [ne_eq, not_true_eq_false, false_iff]
-      have := (not_congr he).mp (by rw [hes]; simp)
-      rintro (h | ⟨hd, (h | h | h)⟩)
-      · exact this (.inl (.inl h))
-      · exact hn ⟨hd, .inl h⟩
-      · exact hn ⟨hd, .inr h⟩
-      · exact this (.inl (.inr ⟨hd, h⟩))
-    | cons x xs =>
-      simp only [ne_eq, reduceCtorEq, not_false_eq_true, true_iff]
-      have := he.mp (by rw [hes]; simp)
-      rcases this with (h | ⟨hd, h⟩) | ⟨hd, h⟩
-      · exact .inl h
-      · exact .inr ⟨hd, .inr (.inr h)⟩
-      · exact .inr ⟨hd, .inr (.inl h)⟩
+  rw [check_ne_ok_iff, ← mainB F b, prepass_ne_none]
+  constructor
+  · rintro (⟨hd, (h | h)⟩ | h)
+    · exact .inl ⟨hd, h⟩
+    · refine .inr (assign_errsB F hd b ?_)
+      cases k
+      · exact h
+      · exact shallow_deepB b h
+    · exact .inr h
+  · rintro (⟨hd, h⟩ | h)
+    · exact .inl ⟨hd, .inl h⟩
+    · exact .inr h
 
 /-- **C24 (otherwise accepted)**: acceptance does not depend on whether the flags came from
     a decorator or from a `with` block. -/
@@ -55,55 +40,73 @@ theorem accept_kind_irrelevant (F : Flags) (b : Block) :
   simp only [ne_eq, Decidable.not_not] at h1 h2
   rw [h1, h2]
 
+/-- **C24 (nested blocks add requirements)**: a nested `with` block is acceptable in a
+    context requiring `F` iff its control arguments are fine for `F` and its body is
+    acceptable for `F` together with the block's own flags. -/
+theorem nested_with_iff (k : Kind) (F G : Flags) (cargs : Args) (b : Block) :
+    check k F (.cons (.withBlock cargs G b) .nil) = .ok ↔
+      (¬ ∃ a, Args.Mem a cargs ∧ BadE F a) ∧ check .withBlock (F.or G) b = .ok := by
+  have h1 := not_congr (rejected_iff k F (.cons (.withBlock cargs G b) .nil))
+  have h2 := not_congr (rejected_iff .withBlock (F.or G) b)
+  simp only [ne_eq, Decidable.not_not] at h1 h2
+  rw [h1, h2, violates_cons_iff, vs_with_iff]
+  have := violates_nil F
+  constructor
+  · intro h; exact ⟨fun x => h (.inl (.inl x)), fun x => h (.inl (.inr x))⟩
+  · rintro ⟨h1, h2⟩ ((x | x) | x)
+    · exact h1 x
+    · exact h2 x
+    · exact this x
+
 /-- **C24 (early rejection is justified)**: a rejection before CFG checking happens only
-    in a daggered context and names a construct that does occur. -/
+    in a daggered context and names the kind of construct that does occur. -/
 theorem pre_sound (k : Kind) (F : Flags) (b : Block) (e : Err) (h : check k F b = .pre e) :
-    F.dagger = true ∧ ((e = .loop ∧ LoopInB b) ∨ (e = .assign ∧ AssignInB b)) := by
-  unfold check at h
-  cases hpre : prepass k F b with
-  | none =>
-    rw [hpre] at h
-    cases hes : errsBlock F b <;> rw [hes] at h <;> simp at h
-  | some e' =>
-    rw [hpre] at h
-    simp only [Verdict.pre.injEq] at h
-    subst h
-    have hd : F.dagger = true := by
-      cases hd : F.dagger
-      · cases k <;> simp [prepass, prepassFn, prepassWith, hd] at hpre
-      · rfl
-    refine ⟨hd, ?_⟩
-    cases k
-    · simp only [prepass, prepassFn, hd, Bool.not_true, Bool.false_eq_true, ↓reduceIte] at hpre
-      -- walk to the statement at which `go` stopped
-      have key : ∀ b : Block, prepassFn.go b = some e' →
-          (e' = .loop ∧ LoopInB b) ∨ (e' = .assign ∧ AssignInB b) := by
-        intro b
-        induction b using Block.rec (motive_1 := fun _ => True) with
-        | expr | assign | ite | «while» => trivial
-        | nil => intro h; simp [prepassFn.go] at h
-        | cons s r _ ih =>
-          intro h
-          unfold prepassFn.go at h
-          by_cases hl : s.hasLoop = true
-          · simp only [hl, ↓reduceIte, Option.some.injEq] at h
-            exact .inl ⟨h.symm, .head ((hasLoopS_iff s).mp hl)⟩
-          · by_cases ha : s.hasAssign = true
-            · simp only [hl, Bool.false_eq_true, ↓reduceIte, ha, Option.some.injEq] at h
-              exact .inr ⟨h.symm, .head ((hasAssignS_iff s).mp ha)⟩
-            · simp only [hl, Bool.false_eq_true, ↓reduceIte, ha] at h
-              rcases ih h with ⟨h1, h2⟩ | ⟨h1, h2⟩
-              · exact .inl ⟨h1, .tail h2⟩
-              · exact .inr ⟨h1, .tail h2⟩
-      exact key b hpre
-    · simp only [prepass, prepassWith, hd, Bool.not_true, Bool.false_eq_true, ↓reduceIte] at hpre
-      by_cases hl : b.hasLoop = true
-      · simp only [hl, ↓reduceIte, Option.some.injEq] at hpre
-        exact .inl ⟨hpre.symm, (hasLoopB_iff b).mp hl⟩
-      · by_cases ha : b.hasAssign = true
-        · simp only [hl, Bool.false_eq_true, ↓reduceIte, ha, Option.some.injEq] at hpre
-          exact .inr ⟨hpre.symm, (hasAssignB_iff b).mp ha⟩
-        · simp [hl, ha] at hpre
+    F.dagger = true ∧ ((e = .loop ∧ ∃ F', LoopAtB F b F') ∨ (e = .assign ∧ ∃ F', AssignAtB F b F')) := by
+  have hne : prepass k F b = some e := by
+    unfold check at h
+    cases hp : prepass k F b with
+    | none => rw [hp] at h; cases hes : errsBlock F b <;> rw [hes] at h <;> simp at h
+    | some e' => rw [hp] at h; simp only [Verdict.pre.injEq] at h; rw [h]
+  have hd : F.dagger = true := ((prepass_ne_none k F b).mp (by rw [hne]; simp)).1
+  refine ⟨hd, ?_⟩
+  -- the pre-checks only ever answer `loop` when a loop occurs and `assign` when an assignment occurs
+  have hloop : b.hasLoop = true → ∃ F', LoopAtB F b F' := by
+    intro hl
+    exact loopAt_of_hasLoopB F b hl
+  have hassign : b.hasAssign = true → ∃ F', AssignAtB F b F' := assignAt_of_hasAssignB F b
+  cases k
+  · simp only [prepass, prepassFn, hd, Bool.not_true, Bool.false_eq_true, ↓reduceIte] at hne
+    have key : ∀ b : Block, prepassFn.go b = some e →
+        (e = .loop ∧ b.hasLoop = true) ∨ (e = .assign ∧ b.hasAssign = true) := by
+      intro b
+      induction b using Block.rec (motive_1 := fun _ => True) with
+      | expr | assign | ite | «while» | withBlock => trivial
+      | nil => intro h; simp [prepassFn.go] at h
+      | cons s r _ ih =>
+        intro h
+        unfold prepassFn.go at h
+        simp only [Block.hasLoop, Block.hasAssign, Bool.or_eq_true]
+        by_cases hl : s.hasLoop = true
+        · simp only [hl, ↓reduceIte, Option.some.injEq] at h
+          exact .inl ⟨h.symm, .inl hl⟩
+        · by_cases ha : s.hasAssign = true
+          · simp only [hl, Bool.false_eq_true, ↓reduceIte, ha, Option.some.injEq] at h
+            exact .inr ⟨h.symm, .inl ha⟩
+          · simp only [hl, Bool.false_eq_true, ↓reduceIte, ha] at h
+            rcases ih h with ⟨h1, h2⟩ | ⟨h1, h2⟩
+            · exact .inl ⟨h1, .inr h2⟩
+            · exact .inr ⟨h1, .inr h2⟩
+    rcases key b hne with ⟨h1, h2⟩ | ⟨h1, h2⟩
+    · exact .inl ⟨h1, hloop h2⟩
+    · exact .inr ⟨h1, hassign h2⟩
+  · simp only [prepass, prepassWith, hd, Bool.not_true, Bool.false_eq_true, ↓reduceIte] at hne
+    by_cases hl : b.hasLoop = true
+    · simp only [hl, ↓reduceIte, Option.some.injEq] at hne
+      exact .inl ⟨hne.symm, hloop hl⟩
+    · by_cases ha : b.hasAssignShallow = true
+      · simp only [hl, Bool.false_eq_true, ↓reduceIte, ha, Option.some.injEq] at hne
+        exact .inr ⟨hne.symm, hassign (shallow_deepB b ha)⟩
+      · simp [hl, ha] at hne
 
 /-- **C24 (flags of a decorated function)**: `@guppy(unitary=u, control=c, dagger=d, power=p)`
     requires a flag iff `unitary` or that flag's keyword was given. -/
@@ -146,11 +149,18 @@ example : check .withBlock ⟨true, true, false⟩
       (.cons (.expr (.call Flags.noFlags (.cons .leaf .nil) false))
         (.cons (.expr (.exempt (.cons (.place true true) .nil))) .nil))) = .ok := by decide
 
+/-- nested: `@guppy(dagger=True)` function, `with control(c): if f(q): pass` with `f` control-only:
+    rejected, the call in the nested condition lacks the dagger flag of the outer context -/
+example : check .fn ⟨false, true, false⟩
+    (.cons (.withBlock (.cons (.place true false) .nil) ⟨true, false, false⟩
+      (.cons (.ite (.call ⟨true, false, false⟩ (.cons (.place true false) .nil) false) .nil .nil) .nil)) .nil)
+    = .bb [.call ⟨false, true, false⟩] := by decide
+
 /-- loop under dagger -/
 example : check .fn ⟨false, true, false⟩ (.cons (.while .leaf .nil) .nil) = .pre .loop := by decide
 
 /-- the specification side is inhabited independently of the checker -/
 example : Violates ⟨false, true, false⟩ (.cons (.while .leaf .nil) .nil) :=
-  .inr ⟨rfl, .inl (.head .here)⟩
+  .inr ⟨_, rfl, .inl (.head .here)⟩
 
 end GuppyVerif.Unitary
